@@ -30,14 +30,18 @@ def export(design, want_spice=True, want_built=False):
     return out
 
 
-def check_valid(design, spice=True):
+def check_valid(design, spice=True, allow_invalid=False):
     """C01 oracle for one design that R calls valid: returns None (agrees) or a dict describing the disagreement."""
     try:
         rdev, rpart = refsem.R(design)
     except refsem.Invalid as e:
+        if allow_invalid:
+            return "skip"
         return dict(kind="family_bug", detail=f"reference semantics calls the design invalid: {e}")
     res = export(design, want_spice=spice)
     if res["exc"] is not None:
+        if refsem.derivation_cycle(design):
+            return "grey_raised"  # a net defined in terms of itself through a slice/concat: raise-or-correct
         return dict(kind="rejected_valid", stage=res["stage"], exc=res["exc"])
     try:
         odev, opart = observe.O_pkg(res["pkg"], design)
